@@ -979,5 +979,496 @@ func emitScanner(repo, outdir string) error {
 	if err != nil {
 		return err
 	}
-	return writeIfChanged(filepath.Join(outdir, "Scanner.v"), s)
+	if err := writeIfChanged(filepath.Join(outdir, "Scanner.v"), s); err != nil {
+		return err
+	}
+	l, err := genLiteral(repo)
+	if err != nil {
+		return err
+	}
+	return writeIfChanged(filepath.Join(outdir, "Literal.v"), l)
+}
+
+// ------------------------------------------------------------------------------------------------------------
+// The literal classifier: the `default:` clause (unquoted tokens) of parseLiteral in nbt/snbt_decode.go, written
+// to coq/Gen/Literal.v.
+//
+// What is translated: the flag loop `for i, c := range literal { ... }` statement by statement through funcs.go
+// (a structural recursion over the bytes of the token, the loop variables carried as arguments; `continue` is
+// accepted only in tail position of the loop body, where it means the same as falling off its end), and the
+// decision tree after the loop.  The decision tree's leaves must have one of these shapes exactly:
+//
+//	num, err := strconv.ParseInt(string(literal[:strlen]), 10, N); return TagX, intN(num) | num, err
+//	num, err := strconv.ParseFloat(string(literal[:strlen]), N);   return TagX, floatN(num) | num, err
+//	return TagString, string(literal), nil
+//	panic(...)                                   (also: falling out of a switch without default, then the final panic)
+//
+// and become (tag, conv, bits, cast, strlen): conv 1 = ParseInt, 2 = ParseFloat, 0 = the token itself, 3 = panic;
+// bits = the bit size handed to strconv; cast = the width of the conversion applied to the number (64 = none).
+// A case clause whose body is only `fallthrough` is merged into the clause that follows it.
+const literalFile = "snbt_decode.go"
+
+func tailStmts(list []ast.Stmt, out map[ast.Stmt]bool) {
+	if len(list) == 0 {
+		return
+	}
+	last := list[len(list)-1]
+	out[last] = true
+	switch v := last.(type) {
+	case *ast.BlockStmt:
+		tailStmts(v.List, out)
+	case *ast.IfStmt:
+		tailStmts(v.Body.List, out)
+		if v.Else != nil {
+			tailStmts([]ast.Stmt{v.Else}, out)
+		}
+	}
+}
+
+func genLiteral(repo string) (out string, err error) {
+	defer func() {
+		if r := recover(); r != nil {
+			if te, ok := r.(trErr); ok {
+				err = te
+				return
+			}
+			panic(r)
+		}
+	}()
+	fset := token.NewFileSet()
+	files, _, e := parseDir(fset, filepath.Join(repo, "nbt"))
+	if e != nil {
+		return "", e
+	}
+	conf := types.Config{Importer: &fakeImporter{map[string]*types.Package{}}, Error: func(error) {}}
+	info := &types.Info{Types: map[ast.Expr]types.TypeAndValue{}, Defs: map[*ast.Ident]types.Object{}, Uses: map[*ast.Ident]types.Object{}}
+	conf.Check("nbt", fset, files, info)
+	fd := findFunc(files, "", "parseLiteral")
+	if fd == nil || fd.Body == nil {
+		return "", fmt.Errorf("nbt: func parseLiteral not found")
+	}
+	failAt := func(n ast.Node, f string, a ...any) {
+		panic(trErr{fmt.Sprintf("%s: %s", fset.Position(n.Pos()), fmt.Sprintf(f, a...))})
+	}
+	if filepath.Base(fset.Position(fd.Pos()).Filename) != literalFile {
+		failAt(fd, "parseLiteral is not in %s", literalFile)
+	}
+	ps := fd.Type.Params.List
+	if len(ps) != 1 || len(ps[0].Names) != 1 {
+		failAt(fd, "parseLiteral: unexpected parameters")
+	}
+	if at, ok := ps[0].Type.(*ast.ArrayType); !ok || at.Len != nil || !isIdent(at.Elt, "byte") {
+		failAt(fd, "parseLiteral: the parameter is not a []byte")
+	}
+	lit := ps[0].Names[0].Name
+	// body = switch literal[0] { case '"', '\'': ...  default: ... } ; panic(...)
+	if len(fd.Body.List) != 2 {
+		failAt(fd, "parseLiteral: body is not `switch literal[0] {...}; panic(...)`")
+	}
+	sw, ok := fd.Body.List[0].(*ast.SwitchStmt)
+	if !ok || sw.Init != nil || sw.Tag == nil {
+		failAt(fd, "parseLiteral: first statement is not a switch with a tag")
+	}
+	if ix, ok := sw.Tag.(*ast.IndexExpr); !ok || !isIdent(ix.X, lit) || !constZero(info, ix.Index) {
+		failAt(sw, "parseLiteral: the switch is not on %s[0]", lit)
+	}
+	isPanic := func(s ast.Stmt) bool {
+		es, ok := s.(*ast.ExprStmt)
+		if !ok {
+			return false
+		}
+		c, ok := es.X.(*ast.CallExpr)
+		return ok && isIdent(c.Fun, "panic")
+	}
+	if !isPanic(fd.Body.List[1]) {
+		failAt(fd.Body.List[1], "parseLiteral: the statement after the switch is not a panic")
+	}
+	var def *ast.CaseClause
+	var quoted []string
+	for _, c := range sw.Body.List {
+		cc := c.(*ast.CaseClause)
+		if cc.List == nil {
+			def = cc
+			continue
+		}
+		for _, e := range cc.List {
+			tv := info.Types[e]
+			if tv.Value == nil || tv.Value.Kind() != constant.Int {
+				failAt(e, "parseLiteral: non-constant case label")
+			}
+			quoted = append(quoted, tv.Value.ExactString())
+		}
+	}
+	if def == nil {
+		failAt(sw, "parseLiteral: no default clause")
+	}
+	sort.Strings(quoted)
+
+	known := map[string]*knownFn{}
+	for _, sp := range fnSpecs {
+		if sp.dir == "nbt" && sp.recv == "" && len(sp.locals) == 0 {
+			known[sp.name] = &knownFn{cname: "nbt_" + sp.name, nres: 1}
+		}
+	}
+	t := &trans{fset: fset, info: info, prefix: "nbt", used: map[string]int{}, freeSet: map[string]bool{}, known: known, ctype: map[string]string{}, declared: map[string]bool{}}
+	t.push()
+	for _, r := range []string{"wrap_s", "wrap_u", "Z", "bool", "true", "false", "negb", "fst", "snd", "if", "then", "else", "let", "in", "fun", "at", "as", "end", "match", "with", "return", "Type", "Set", "Prop", "forall", "exists", "list", "length", "nil", "cons", "l", "r"} {
+		t.used[r] = 1
+	}
+	ast.Inspect(def, func(n ast.Node) bool {
+		if id, ok := n.(*ast.Ident); ok {
+			if obj := info.Defs[id]; obj != nil {
+				if bt, ok := obj.Type().Underlying().(*types.Basic); ok && bt.Info()&types.IsBoolean != 0 {
+					t.declared[id.Name] = true
+				}
+			}
+		}
+		return true
+	})
+	litC := t.define(lit)
+	t.ctype[litC] = "list Z"
+	var aux bytes.Buffer
+	var body func(list []ast.Stmt) string
+	// the leaves of the decision tree
+	leaf := func(tag, conv, bits, cast, strlen string) string {
+		return "(" + tag + ", " + conv + ", " + bits + ", " + cast + ", " + strlen + ")"
+	}
+	tagName := func(e ast.Expr) string {
+		id, ok := e.(*ast.Ident)
+		if !ok {
+			failAt(e, "parseLiteral: the tag returned is not a constant name")
+		}
+		if c, ok := info.Uses[id].(*types.Const); !ok || c.Parent() != c.Pkg().Scope() {
+			failAt(e, "parseLiteral: %s is not a package-level constant", id.Name)
+		}
+		return "nbt_" + id.Name
+	}
+	widthOf := map[string]string{"int8": "8", "int16": "16", "int32": "32", "int64": "64", "float32": "32", "float64": "64"}
+	// literal[:strlen] as the argument of string(...)
+	isPrefixOfLit := func(e ast.Expr) (string, bool) {
+		c, ok := e.(*ast.CallExpr)
+		if !ok || !isIdent(c.Fun, "string") || len(c.Args) != 1 {
+			return "", false
+		}
+		sl, ok := c.Args[0].(*ast.SliceExpr)
+		if !ok || sl.Slice3 || sl.Low != nil || sl.High == nil || !isIdent(sl.X, lit) {
+			return "", false
+		}
+		return t.expr(sl.High), true
+	}
+	// conversion leaf: [num, err := strconv.ParseX(...); return TagX, T(num), err]
+	convLeaf := func(list []ast.Stmt) (string, bool) {
+		if len(list) != 2 {
+			return "", false
+		}
+		as, ok1 := list[0].(*ast.AssignStmt)
+		rs, ok2 := list[1].(*ast.ReturnStmt)
+		if !ok1 || !ok2 || as.Tok != token.DEFINE || len(as.Lhs) != 2 || len(as.Rhs) != 1 || len(rs.Results) != 3 {
+			return "", false
+		}
+		num, okn := as.Lhs[0].(*ast.Ident)
+		er, oke := as.Lhs[1].(*ast.Ident)
+		call, okc := as.Rhs[0].(*ast.CallExpr)
+		if !okn || !oke || !okc {
+			return "", false
+		}
+		sel, ok := call.Fun.(*ast.SelectorExpr)
+		if !ok || !isIdent(sel.X, "strconv") {
+			return "", false
+		}
+		var conv, bits string
+		switch sel.Sel.Name {
+		case "ParseInt":
+			if len(call.Args) != 3 {
+				return "", false
+			}
+			if tv := info.Types[call.Args[1]]; tv.Value == nil || tv.Value.ExactString() != "10" {
+				failAt(call, "parseLiteral: ParseInt with a base other than 10")
+			}
+			conv = "1"
+			bits = t.expr(call.Args[2])
+		case "ParseFloat":
+			if len(call.Args) != 2 {
+				return "", false
+			}
+			conv = "2"
+			bits = t.expr(call.Args[1])
+		default:
+			return "", false
+		}
+		strlen, ok := isPrefixOfLit(call.Args[0])
+		if !ok {
+			failAt(call, "parseLiteral: the text converted is not string(%s[:n])", lit)
+		}
+		if !isIdent(rs.Results[2], er.Name) {
+			failAt(rs, "parseLiteral: the error of the conversion is not returned")
+		}
+		cast := "64"
+		switch v := rs.Results[1].(type) {
+		case *ast.Ident:
+			if v.Name != num.Name {
+				return "", false
+			}
+		case *ast.CallExpr:
+			id, ok := v.Fun.(*ast.Ident)
+			if !ok || len(v.Args) != 1 || !isIdent(v.Args[0], num.Name) || widthOf[id.Name] == "" {
+				return "", false
+			}
+			if (conv == "1") != strings.HasPrefix(id.Name, "int") {
+				failAt(v, "parseLiteral: conversion %s of the result of %s", id.Name, sel.Sel.Name)
+			}
+			cast = widthOf[id.Name]
+		default:
+			return "", false
+		}
+		return leaf(tagName(rs.Results[0]), "("+conv+")", bits, "("+cast+")", strlen), true
+	}
+	curStrlen := func() string {
+		c, ok := t.lookup("strlen")
+		if !ok {
+			return "(0)"
+		}
+		return c
+	}
+	panicLeaf := func() string { return leaf("(0)", "(3)", "(0)", "(0)", "(0)") }
+	body = func(list []ast.Stmt) string {
+		if len(list) == 0 {
+			return panicLeaf() // the statement after the outer switch
+		}
+		if l, ok := convLeaf(list); ok {
+			return l
+		}
+		s, rest := list[0], list[1:]
+		switch v := s.(type) {
+		case *ast.BlockStmt:
+			return body(append(append([]ast.Stmt{}, v.List...), rest...))
+		case *ast.ExprStmt:
+			if isPanic(v) {
+				return panicLeaf()
+			}
+		case *ast.ReturnStmt:
+			// return TagString, string(literal), nil
+			if len(v.Results) == 3 && isIdent(v.Results[2], "nil") {
+				if c, ok := v.Results[1].(*ast.CallExpr); ok && isIdent(c.Fun, "string") && len(c.Args) == 1 && isIdent(c.Args[0], lit) {
+					return leaf(tagName(v.Results[0]), "(0)", "(0)", "(0)", curStrlen())
+				}
+			}
+		case *ast.IfStmt:
+			if v.Init != nil {
+				failAt(v, "parseLiteral: if with init statement")
+			}
+			cond := t.expr(v.Cond)
+			a := body(append([]ast.Stmt{v.Body}, rest...))
+			var b string
+			if v.Else != nil {
+				b = body(append([]ast.Stmt{v.Else}, rest...))
+			} else {
+				b = body(rest)
+			}
+			return "if " + cond + "\n  then " + a + "\n  else " + b
+		case *ast.SwitchStmt:
+			if v.Init != nil || v.Tag == nil {
+				failAt(v, "parseLiteral: unsupported switch")
+			}
+			tag := t.expr(v.Tag)
+			var b bytes.Buffer
+			var pending []ast.Expr // labels of clauses that only fall through
+			var def *ast.CaseClause
+			n := len(v.Body.List)
+			for i, c := range v.Body.List {
+				cc := c.(*ast.CaseClause)
+				onlyFall := len(cc.Body) == 1
+				if onlyFall {
+					br, ok := cc.Body[0].(*ast.BranchStmt)
+					onlyFall = ok && br.Tok == token.FALLTHROUGH
+				}
+				if onlyFall {
+					if cc.List == nil || i == n-1 {
+						failAt(cc, "parseLiteral: unsupported fallthrough")
+					}
+					pending = append(pending, cc.List...)
+					continue
+				}
+				for _, st := range cc.Body {
+					if _, ok := st.(*ast.BranchStmt); ok {
+						failAt(st, "parseLiteral: unsupported branch statement")
+					}
+				}
+				if cc.List == nil {
+					def = cc // labels that fell through to the default clause are caught by it anyway
+					pending = nil
+					continue
+				}
+				labels := append(pending, cc.List...)
+				pending = nil
+				var cs []string
+				for _, e := range labels {
+					cs = append(cs, "("+tag+" =? "+t.expr(e)+")")
+				}
+				cond := cs[0]
+				for _, c := range cs[1:] {
+					cond = "(" + cond + " || " + c + ")"
+				}
+				fmt.Fprintf(&b, "if %s\n  then %s\n  else ", cond, body(append(append([]ast.Stmt{}, cc.Body...), rest...)))
+			}
+			if len(pending) > 0 {
+				failAt(v, "parseLiteral: fallthrough into nothing")
+			}
+			if def != nil {
+				if i := len(v.Body.List) - 1; v.Body.List[i] != ast.Stmt(def) {
+					failAt(def, "parseLiteral: default clause is not the last one")
+				}
+				b.WriteString(body(append(append([]ast.Stmt{}, def.Body...), rest...)))
+			} else {
+				b.WriteString(body(rest))
+			}
+			return b.String()
+		}
+		failAt(s, "parseLiteral: unsupported statement %T after the loop", s)
+		return ""
+	}
+
+	// the clause: declarations, the range loop, the decision tree
+	var pre bytes.Buffer
+	list := def.Body
+	k := 0
+	for ; k < len(list); k++ {
+		switch v := list[k].(type) {
+		case *ast.AssignStmt:
+			if v.Tok != token.DEFINE || len(v.Lhs) != 1 || len(v.Rhs) != 1 {
+				failAt(v, "parseLiteral: unsupported declaration")
+			}
+			id := v.Lhs[0].(*ast.Ident)
+			var val string
+			if c, ok := v.Rhs[0].(*ast.CallExpr); ok && isIdent(c.Fun, "len") && len(c.Args) == 1 && isIdent(c.Args[0], lit) {
+				val = "(Z.of_nat (length " + litC + "))"
+			} else {
+				val = t.expr(v.Rhs[0])
+			}
+			fmt.Fprintf(&pre, "let %s := %s in\n  ", t.define(id.Name), val)
+			continue
+		case *ast.DeclStmt:
+			gd, ok := v.Decl.(*ast.GenDecl)
+			if !ok || gd.Tok != token.VAR {
+				failAt(v, "parseLiteral: unsupported declaration")
+			}
+			for _, sp := range gd.Specs {
+				vs := sp.(*ast.ValueSpec)
+				if len(vs.Values) != 0 {
+					failAt(vs, "parseLiteral: var with initialiser")
+				}
+				for _, n := range vs.Names {
+					z := "(0)"
+					if t.declared[n.Name] {
+						z = "false"
+					} else if _, e := coqType(info.Defs[n].Type()); e != nil {
+						failAt(n, "parseLiteral: %v", e)
+					}
+					fmt.Fprintf(&pre, "let %s := %s in\n  ", t.define(n.Name), z)
+				}
+			}
+			continue
+		}
+		break
+	}
+	if k >= len(list) {
+		failAt(def, "parseLiteral: no loop in the default clause")
+	}
+	rg, ok := list[k].(*ast.RangeStmt)
+	if !ok || rg.Tok != token.DEFINE || !isIdent(rg.X, lit) || rg.Key == nil || rg.Value == nil {
+		failAt(list[k], "parseLiteral: expected `for i, c := range %s`", lit)
+	}
+	iv, cv := rg.Key.(*ast.Ident), rg.Value.(*ast.Ident)
+	// continue only in tail position; no other way out of the body
+	tails := map[ast.Stmt]bool{}
+	tailStmts(rg.Body.List, tails)
+	ast.Inspect(rg.Body, func(n ast.Node) bool {
+		switch v := n.(type) {
+		case *ast.BranchStmt:
+			if v.Tok != token.CONTINUE || v.Label != nil || !tails[v] {
+				failAt(v, "parseLiteral: %s that is not a plain continue in tail position of the loop body", v.Tok)
+			}
+		case *ast.ReturnStmt, *ast.ForStmt, *ast.RangeStmt, *ast.GoStmt, *ast.DeferStmt, *ast.SwitchStmt:
+			failAt(n, "parseLiteral: unsupported statement inside the loop")
+		case *ast.BlockStmt:
+			for i, st := range v.List {
+				if br, ok := st.(*ast.BranchStmt); ok && br.Tok == token.CONTINUE {
+					v.List[i] = &ast.EmptyStmt{Semicolon: br.Pos()} // tail position: same as the end of the body
+				}
+			}
+		}
+		return true
+	})
+	as := map[string]bool{}
+	t.assigned(rg.Body.List, as)
+	if as[iv.Name] || as[cv.Name] || as[lit] {
+		failAt(rg, "parseLiteral: the loop assigns its own variables")
+	}
+	var state []string
+	for n := range as {
+		if _, ok := t.lookup(n); !ok {
+			failAt(rg, "parseLiteral: the loop assigns %s, which is not declared before it", n)
+		}
+		state = append(state, n)
+	}
+	sort.Strings(state)
+	var outer []string
+	for _, n := range state {
+		c, _ := t.lookup(n)
+		outer = append(outer, c)
+	}
+	loop := "nbt_parseLiteral_loop"
+	t.used[loop] = 1
+	t.push()
+	restName, listName := t.fresh("rest"), t.fresh("bytes")
+	iF, cF := t.define(iv.Name), t.define(cv.Name)
+	var formals []string
+	for _, n := range state {
+		formals = append(formals, t.assign(rg, n))
+	}
+	t.fall = func() string {
+		var cur []string
+		for _, n := range state {
+			c, _ := t.lookup(n)
+			cur = append(cur, c)
+		}
+		return "(" + loop + " " + restName + " (" + iF + " + 1) " + strings.Join(cur, " ") + ")"
+	}
+	lb := t.stmts(append([]ast.Stmt{}, rg.Body.List...), rg)
+	t.fall = nil
+	t.pop()
+	if len(t.free) > 0 {
+		failAt(rg, "parseLiteral: free variables %v in the loop", t.free)
+	}
+	var formB, tys []string
+	for i, f := range formals {
+		ty := "Z"
+		if t.declared[state[i]] {
+			ty = "bool"
+		}
+		formB = append(formB, "("+f+" : "+ty+")")
+		tys = append(tys, ty)
+	}
+	fmt.Fprintf(&aux, "(* nbt/%s, func parseLiteral: the loop `for %s, %s := range %s` of the default clause; state: %s *)\n", literalFile, iv.Name, cv.Name, lit, strings.Join(state, ", "))
+	fmt.Fprintf(&aux, "Fixpoint %s (%s : list Z) (%s : Z) %s {struct %s} : %s :=\n  match %s with\n  | [] => %s\n  | %s :: %s => %s\n  end.\n\n",
+		loop, listName, iF, strings.Join(formB, " "), listName, strings.Join(tys, " * "), listName, tuple(formals), cF, restName, lb)
+	var after []string
+	for _, n := range state {
+		after = append(after, t.assign(rg, n))
+	}
+	pat := after[0]
+	if len(after) > 1 {
+		pat = "'(" + strings.Join(after, ", ") + ")"
+	}
+	tree := body(list[k+1:])
+	if len(t.free) > 0 {
+		failAt(def, "parseLiteral: free variables %v", t.free)
+	}
+	var b bytes.Buffer
+	b.WriteString("(* GENERATED by tools/gotrans (scanner.go) from nbt/" + literalFile + " of the repository working tree - do not edit *)\n")
+	b.WriteString("From Coq Require Import ZArith Bool List.\nFrom GoMC Require Import Base.GoInt Gen.Consts Gen.Funcs.\nLocal Open Scope Z_scope.\nLocal Open Scope bool_scope.\nImport ListNotations.\n\n")
+	b.WriteString(aux.String())
+	fmt.Fprintf(&b, "(* nbt/%s, func parseLiteral, the default clause of `switch %s[0]` (the other clause, labels %s, reads a\n   quoted string): result (tag, conv, bits, cast, strlen) - conv 1 = strconv.ParseInt(string(%s[:strlen]), 10, bits),\n   2 = strconv.ParseFloat(string(%s[:strlen]), bits), 0 = the token itself as a string, 3 = panic; cast = width of the\n   conversion applied to the number (64 = none) *)\n", literalFile, lit, strings.Join(quoted, " "), lit, lit)
+	fmt.Fprintf(&b, "Definition nbt_parseLiteral_unquoted (%s : list Z) : Z * Z * Z * Z * Z :=\n  %slet %s := %s %s (0) %s in\n  %s.\n", litC, pre.String(), pat, loop, litC, strings.Join(outer, " "), tree)
+	return b.String(), nil
 }
